@@ -49,6 +49,27 @@ def _defs_of(st: ast.AST):
     return out
 
 
+def _quantifier(test: ast.AST) -> Optional[str]:
+    """Is a threshold test on a tensor of per-column values universally or existentially quantified?
+    X.max() < c, (X < c).all(), torch.all(X < c) -> 'all';  X.min() < c, (X < c).any(), torch.any(X < c) -> 'any'."""
+    t = test
+    if isinstance(t, ast.Call) and dotted(t.func) == "bool" and t.args:
+        t = t.args[0]
+    if isinstance(t, ast.Compare) and len(t.ops) == 1 and isinstance(t.ops[0], (ast.Lt, ast.LtE, ast.Gt, ast.GtE)):
+        less = isinstance(t.ops[0], (ast.Lt, ast.LtE))
+        l = t.left
+        if isinstance(l, ast.Call) and isinstance(l.func, ast.Attribute) and l.func.attr in ("max", "amax"):
+            return "all" if less else "any"
+        if isinstance(l, ast.Call) and isinstance(l.func, ast.Attribute) and l.func.attr in ("min", "amin"):
+            return "any" if less else "all"
+        return None
+    if isinstance(t, ast.Call) and isinstance(t.func, ast.Attribute) and t.func.attr in ("all", "any") and not t.args:
+        return t.func.attr
+    if isinstance(t, ast.Call) and dotted(t.func) in ("torch.all", "torch.any"):
+        return dotted(t.func).split(".")[-1]
+    return None
+
+
 def safe_division_sites(fn: FunctionInfo, rep: Report, rule: str):
     """torch.div(num, den, out=...) / den-based divisions: den must have been clamped away from zero first."""
     cfg = CFG(fn)
@@ -319,6 +340,127 @@ def run(idx: ProgramIndex, rep: Report, tier: str, selftest: bool = True):
         total += safe_division_sites(f, rep, "C08.D")
     if total < 3:
         rep.error(f"only {total} torch.div sites found in linear_cg.py (expected >= 3)")
+
+    # ---------------------------------------------------------------- M  (what is measured, quantifiers, thresholds)
+    from ..deps import ReachingDefs, value_reads
+
+    rep.rule("C08.M", "the convergence measure is a function of the residual; zero-column threshold and the tridiagonal "
+                      "stop are column-wise correct", floor=3)
+    rd = ReachingDefs(cg, reads=value_reads)
+
+    # iteration state: anything updated in place / through out= anywhere, or re-bound from itself
+    state_vars: Set[str] = set()
+    for nid_, dl in rd.defs.items():
+        nd_ = rd.cfg.nodes[nid_]
+        for (dn, _r, strong) in dl:
+            if not strong or dn in _r:
+                state_vars.add(dn)
+
+    def leaves(nid: int, name: str) -> Set[str]:
+        """Direct inputs of the value of `name` at node nid, with temporaries (names ALL of whose reaching definitions
+        are plain rebinding assignments) expanded down to iteration-state variables (written through out= / in place, or
+        re-bound inside the loop from themselves), parameters and attributes of self."""
+        out: Set[str] = set()
+        seen: Set[tuple] = set()
+
+        def resolve(x: str, at: int, depth: int) -> None:
+            if "." in x:
+                base = x.split(".")[0]
+                if base in ("self", "settings", "torch"):
+                    if base != "torch":
+                        out.add(x)
+                    return
+                x = base
+            if x == "torch":
+                return
+            if x in ("residual", "rhs_is_zero"):
+                out.add(x)
+                return
+            ds = rd.IN.get(at, {}).get(x, frozenset())
+            if not ds or depth > 6:
+                out.add(x)
+                return
+            if x not in state_vars and all(rd.defs[m][i][2] for (m, i) in ds) and len(ds) == 1:
+                (m, i), = ds
+                if (m, i) in seen:
+                    return
+                seen.add((m, i))
+                for y in rd.defs[m][i][1]:
+                    if y != x:
+                        resolve(y, m, depth + 1)
+            else:
+                out.add(x)
+
+        for (m, i) in rd.IN.get(nid, {}).get(name, frozenset()):
+            for y in rd.defs[m][i][1]:
+                if y != name and not y.startswith(name + "."):
+                    resolve(y, m, 0)
+        return out
+
+    # M1: every in-loop use of residual_norm for convergence reads a value computed from `residual`
+    n_m1 = 0
+    for node in cfg.stmt_nodes():
+        if node.kind != "stmt" or not _inside(loop.ast, node.ast):
+            continue
+        if any(nm == "has_converged" and "residual_norm" in rdset for nm, rdset in _defs_of(node.ast)):
+            n_m1 += 1
+            lv = {x for x in leaves(node.id, "residual_norm") if x not in ("torch", "residual_norm")}
+            state = {x for x in lv if x not in ("residual", "rhs_is_zero", "eps", "stop_updating_after", "tolerance")}
+            sample = {"convergence_test": short(node.ast, 70), "residual_norm_computed_from": sorted(lv)}
+            if "residual" in lv and not state:
+                rep.ok("C08.M", sample)
+            else:
+                rep.bad("C08.M", Finding(PROP, "C08.M", fname(cg), "residual_norm computed from " + ", ".join(sorted(lv)),
+                                         f"inside the iteration the norm that decides convergence is computed from {sorted(state) or sorted(lv)}, "
+                                         "not from the residual itself: with a preconditioner r^T M^-1 r is not ||r||^2, so the solver stops "
+                                         "(silently) although the residual is above the tolerance, and the answer depends on the preconditioner",
+                                         cg.loc(node.ast)), sample)
+    if n_m1 == 0:
+        rep.error("no in-loop convergence update of has_converged from residual_norm found")
+    # M2: the zero-column threshold does not depend on the right-hand side (columns are independent systems)
+    for node in cfg.stmt_nodes():
+        if node.kind != "stmt" or not isinstance(node.ast, ast.Assign):
+            continue
+        if any(isinstance(t, ast.Name) and t.id == "rhs_is_zero" for t in node.ast.targets):
+            v = node.ast.value
+            thr = None
+            if isinstance(v, ast.Call) and isinstance(v.func, ast.Attribute) and v.func.attr in ("lt", "le") and v.args:
+                thr = v.args[0]
+            elif isinstance(v, ast.Call) and dotted(v.func) in ("torch.lt", "torch.le") and len(v.args) >= 2:
+                thr = v.args[1]
+            elif isinstance(v, ast.Compare) and len(v.comparators) == 1:
+                thr = v.comparators[0]
+            if thr is None:
+                rep.note(f"rhs_is_zero defined by `{short(v)}`: threshold not recognised")
+                continue
+            dep = rd.closure(node.id, value_reads(thr))
+            sample = {"zero_column_test": short(node.ast, 70), "threshold_depends_on": sorted(x for x in dep if x != "torch")}
+            if {"rhs", "rhs_norm"} & dep:
+                rep.bad("C08.M", Finding(PROP, "C08.M", fname(cg), "zero-column threshold depends on the right-hand side: " + norm(thr),
+                                         f"`{short(node.ast, 70)}`: the threshold below which a column counts as zero depends on the "
+                                         "right-hand side itself (other columns): an all-zero rhs is no longer masked (0/0 -> NaN) and a small "
+                                         "column next to a large one is frozen - columns are no longer independent, the answer no longer "
+                                         "scales linearly", cg.loc(node.ast)), sample)
+            else:
+                rep.ok("C08.M", sample)
+    # M3: the tridiagonal recording stops only when EVERY column has broken down
+    for node in cfg.stmt_nodes():
+        if node.kind == "stmt" and isinstance(node.ast, ast.Assign) and any(
+                isinstance(t, ast.Name) and t.id == "update_tridiag" for t in node.ast.targets) \
+                and isinstance(node.ast.value, ast.Constant) and node.ast.value.value is False:
+            tests = controlling_tests(cfg, node.id)
+            if not tests:
+                continue
+            q = _quantifier(tests[0].ast)
+            sample = {"stop_recording_when": tests[0].label[:70], "quantifier_over_columns": q}
+            if q == "all":
+                rep.ok("C08.M", sample)
+            elif q == "any":
+                rep.bad("C08.M", Finding(PROP, "C08.M", fname(cg), "update_tridiag = False under " + tests[0].label,
+                                         f"the tridiagonal matrices stop being recorded as soon as ANY column's off-diagonal entry "
+                                         f"vanishes (`{tests[0].label[:60]}`): the Lanczos matrices of all other columns are truncated", cg.loc(node.ast)), sample)
+            else:
+                rep.note(f"update_tridiag stop condition `{tests[0].label}`: quantifier not recognised")
 
     if selftest:
         from ..selftest import run_fixtures
